@@ -477,6 +477,38 @@ static void run_c16(void)
     }
 }
 
+/* Twenty lives of one handle (the search above reaches two or three): init, key (size class changing from life to
+ * life), both data entry points, cleanup - after every cleanup nothing may be live, every block must have been
+ * released exactly once and wiped, and no allocator misuse may have been recorded. */
+static void many_lives(int okind, Cipher c, int be)
+{
+    union { CtrObj c; ParObj p; } h; static uint8_t in[512], out[512], tw[512];
+    char cd[64], sig[120]; int life, bs = cipher_bs(c);
+    snprintf(cd, sizeof(cd), "c15lives %d %d %d", okind, (int)c, be);
+    snprintf(sig, sizeof(sig), "C15/%s/%s/%s/many-lives", okind == OK_CTR ? "ctr" : "parallel", cipher_name(c), be_name(be));
+    if (guard_enter(sig, cd)) return;
+    arena_reset(); memset(&h, 0, sizeof(h)); lcg_fill(in, sizeof(in), 9); lcg_fill(tw, sizeof(tw), 10);
+    for (life = 0; life < 20; ++life) {
+        int r, i, frees = 0; unsigned klen = c == CK_MANTIS ? 16 : (unsigned)bs * (unsigned)(1 + life % 3);
+        ++g_cnt.evaluations;
+        r = okind == OK_CTR ? ctr_init(c, be, &h.c) : par_init(c, be, &h.p);
+        if (!r) { violation(sig, cd, "life %d: init returned 0", life + 1); break; }
+        if (okind == OK_CTR) { r = ctr_set_key(c, &h.c, KEYS[life & 1], klen, 5 + (unsigned)(life % 4)); r &= ctr_encrypt(c, &h.c, out, in, 70 + (size_t)life); }
+        else { r = par_set_key(c, &h.p, KEYS[life & 1], klen, 5 + (unsigned)(life % 4), MANTIS_ENCRYPT); r &= par_crypt(c, &h.p, out, in, tw, (size_t)bs * 9, 0);
+               r &= par_crypt(c, &h.p, out, in, tw, (size_t)bs * 9, c == CK_MANTIS ? 0 : 1); }
+        if (r != 1) { violation(sig, cd, "life %d: a valid call returned 0", life + 1); break; }
+        if (okind == OK_CTR) ctr_cleanup(c, &h.c); else par_cleanup(c, &h.p);
+        for (i = 0; i < arena_count(); ++i) { AllocRec *rc = arena_rec(i); frees += rc->freed; if (rc->freed && rc->wiped != 1) { violation(sig, cd, "life %d: a block of %zu bytes reached free() with a non-zero byte at offset %d", life + 1, rc->size, rc->first_dirty); life = 99; break; } }
+        if (life >= 99) break;
+        if (arena_live() != 0 || frees != arena_count() || g_lerr.foreign_free || g_lerr.double_free || g_lerr.interior_free || !arena_check_canaries()) {
+            violation(sig, cd, "life %d: after cleanup %d blocks are live, %d of %d released, foreign/double/interior frees %d/%d/%d", life + 1, arena_live(), frees, arena_count(),
+                      g_lerr.foreign_free, g_lerr.double_free, g_lerr.interior_free); break; }
+        r = okind == OK_CTR ? ctr_encrypt(c, &h.c, out, in, 1) : par_crypt(c, &h.p, out, in, tw, (size_t)bs, 0);
+        if (r != 0) { violation(sig, cd, "life %d: a data call after cleanup returned %d", life + 1, r); break; }
+    }
+    guard_leave();
+}
+
 static void body(void)
 {
     int i, ok, c, be, job = 0, cut = 0, mode;
@@ -486,6 +518,7 @@ static void body(void)
     mode = !strcmp(g_opts.sub, "c17") ? 17 : 15;
     if (g_opts.replay) {
         char nm[96]; const char *colon = strrchr(g_opts.replay, ':'); const MCKind *kp = &KIND;
+        { int a_, b_, c_; if (sscanf(g_opts.replay, "c15lives %d %d %d", &a_, &b_, &c_) == 3) { many_lives(a_, (Cipher)b_, c_); return; } }
         if (!colon || (size_t)(colon - g_opts.replay) >= sizeof(nm)) engine_error("bad replay");
         memcpy(nm, g_opts.replay, (size_t)(colon - g_opts.replay)); nm[colon - g_opts.replay] = 0;
         if (!setup_kind(nm)) engine_error("bad replay kind");
@@ -503,6 +536,11 @@ static void body(void)
         if (job < 4) sample_add("%s: %s %s on %s, alphabet of %d operations over %s, depth <= %d", nm, okname(), cipher_name(g_c), be_name(g_be), l_nops,
                                 mode == 17 ? "one object" : "two objects", KIND.max_depth);
     }
+    if (mode == 15)
+        for (ok = 0; ok < 2; ++ok) for (c = 0; c < 3; ++c) for (be = 0; be <= cipher_max_be((Cipher)c); ++be, ++job) {
+            if (job % g_opts.nshards != g_opts.shard) continue;
+            many_lives(ok ? OK_PAR : OK_CTR, (Cipher)c, be);
+        }
     note_num("kinds_cut_by_depth_cap", cut);
     distinct_add_u64(1); distinct_add_u64(2);
 }
